@@ -334,6 +334,10 @@ class Ctx:
         os.makedirs(cdir, exist_ok=True)
         exe = os.path.join(cdir, "%s_%s" % (name, h.hexdigest()[:20]))
         if os.path.exists(exe):
+            try:
+                os.utime(exe)          # binaries in use stay the newest, so pruning never removes them
+            except OSError:
+                pass
             return exe
         tmp = exe + ".tmp%d" % os.getpid()
         try:
@@ -350,8 +354,10 @@ class Ctx:
         olds = sorted((o for o in glob.glob(os.path.join(cdir, name + "_*"))
                        if re.fullmatch(re.escape(name) + r"_[0-9a-f]{20}", os.path.basename(o))),
                       key=os.path.getmtime)
-        for o in olds[:-3]:
+        for o in olds[:-6]:
             try:
+                if time.time() - os.path.getmtime(o) < 7200:
+                    continue           # possibly in use by a concurrent run of the same check
                 os.remove(o)
             except OSError:
                 pass
